@@ -28,9 +28,7 @@ func baseMessages(n int) []baseMsg {
 		if err != nil || pan != "" || len(b) > 130 {
 			return
 		}
-		if integrity(b, t.BS, t.BL, t.MT, t.CS, true) != "" {
-			return // C01's business
-		}
+		// a base is whatever the library serialises (whether that is well-framed is C01's business)
 		k := string(b)
 		if seen[k] {
 			return
@@ -57,6 +55,8 @@ func baseMessages(n int) []baseMsg {
 	ng := &node{Kind: 'g', Tag: "146", Kids: []*node{str("55"), {Kind: 'g', Tag: "14", Kids: []*node{str("46")}}}}
 	add(mk(framings[0], []*node{ng}), h, []*pop{{Entries: [][]*pop{{sv("a"), {Entries: [][]*pop{{sv("q")}, {sv("r")}}}}}}}, nil)
 	add(mk(framings[0], []*node{str("58")}), h, []*pop{sv("a\x00b")}, nil) // a NUL inside a value
+	add(mk(framings[0], []*node{str("58")}), h, []*pop{sv("caf\xe9")}, nil)           // Latin-1 (invalid UTF-8)
+	add(mk(framings[0], []*node{str("58")}), h, []*pop{sv("\x80\xfe\xff\xc3\xa9")}, nil) // high bytes and a valid UTF-8 pair
 	// then the enumerated family, spread out over shapes, populations and value routes
 	step := 0
 	templates(5, func(idx int, t *tmpl) {
